@@ -22,7 +22,7 @@ struct Options {
 	int tier = 0;               // 0 quick, 1 thorough
 	bool sanitizer_only = false;// C20 re-use mode: judge only crashes / sanitizer reports
 	unsigned lib_timeout = 10;  // seconds per library section
-	unsigned oracle_timeout = 300;
+	unsigned oracle_timeout = 60;
 };
 
 Options& opt();
